@@ -48,7 +48,7 @@ func main() {
 // each mutation is applied by re-parsing the file and mutating the k-th candidate node of a kind
 func mutate(file string, src []byte) []mutant {
 	var out []mutant
-	kinds := []string{"relop", "logic", "negate", "intlit", "arith", "delstmt", "swapargs", "strlit", "constswap", "funcswap", "boollit"}
+	kinds := []string{"relop", "logic", "negate", "intlit", "arith", "delstmt", "swapargs", "strlit", "constswap", "funcswap", "boollit", "errnil", "elsedrop", "slicebound"}
 	if only := os.Getenv("MUTKINDS"); only != "" {
 		kinds = strings.Split(only, ",")
 	}
@@ -87,6 +87,8 @@ var relAlt = map[token.Token][]token.Token{
 func apply(fset *token.FileSet, f *ast.File, kind string, k int) []string {
 	idx := -1
 	var res []string
+	res_ := &res
+	_ = res_
 	pos := func(n ast.Node) string { p := fset.Position(n.Pos()); return fmt.Sprintf("%s:%d", p.Filename, p.Line) }
 	ast.Inspect(f, func(n ast.Node) bool {
 		if res != nil || n == nil {
@@ -122,6 +124,48 @@ func apply(fset *token.FileSet, f *ast.File, kind string, k int) []string {
 							old := id.Name
 							id.Name = alt
 							res = []string{fmt.Sprintf("%s %s() → %s()", pos(call), old, alt)}
+						}
+					}
+				}
+			}
+		case "errnil":
+			// a returned error variable replaced by nil (the error is swallowed)
+			if rs, ok := n.(*ast.ReturnStmt); ok {
+				for i, res := range rs.Results {
+					if id, ok := res.(*ast.Ident); ok && (id.Name == "err" || strings.HasSuffix(id.Name, "Err")) && i == len(rs.Results)-1 {
+						idx++
+						if idx == k {
+							rs.Results[i] = ast.NewIdent("nil")
+							res = rs.Results[i]
+							_ = res
+							resOut := fmt.Sprintf("%s returned error → nil", pos(rs))
+							return setRes(&res_, resOut)
+						}
+					}
+				}
+			}
+		case "elsedrop":
+			// an else branch removed
+			if s, ok := n.(*ast.IfStmt); ok && s.Else != nil {
+				idx++
+				if idx == k {
+					s.Else = nil
+					resOut := fmt.Sprintf("%s else branch removed", pos(s))
+					return setRes(&res_, resOut)
+				}
+			}
+		case "slicebound":
+			// x[a:b] → x[a:b-1] / x[a+1:b] is covered by intlit when the bounds are literals; here: len(x)-1 → len(x)
+			if b, ok := n.(*ast.BinaryExpr); ok && b.Op == token.SUB {
+				if call, ok := b.X.(*ast.CallExpr); ok {
+					if id, ok := call.Fun.(*ast.Ident); ok && id.Name == "len" {
+						if bl, ok := b.Y.(*ast.BasicLit); ok && bl.Value == "1" {
+							idx++
+							if idx == k {
+								bl.Value = "2"
+								resOut := fmt.Sprintf("%s len(x)-1 → len(x)-2", pos(b))
+								return setRes(&res_, resOut)
+							}
 						}
 					}
 				}
@@ -326,3 +370,8 @@ var funcNext = func() map[string]string {
 	}
 	return m
 }()
+
+func setRes(res **[]string, desc string) bool {
+	**res = []string{desc}
+	return false
+}
